@@ -169,8 +169,8 @@ def dtDecode (data : Bytes) : Res (Val × Bytes) :=
 def padLeft (n : Nat) (b : Bytes) : Bytes := List.replicate (n - b.length) 0 ++ b
 
 def dtEncode (date time : Nat) : Res Bytes :=
-  match serTagged tagEncDefault .tlv (some 0x1f0e) (.ok (padLeft 4 (bcdEnc date))),
-        serTagged tagEncDefault .tlv (some 0x1f0f) (.ok (padLeft 3 (bcdEnc time))) with
+  match serTagged tagEncDefault .tlv (some 0x1f0e) (.ok (padLeft 4 (bcdEncK date))),
+        serTagged tagEncDefault .tlv (some 0x1f0f) (.ok (padLeft 3 (bcdEncK time))) with
   | .ok a, .ok b => .ok (a ++ b)
   | .error e, _ => .error e
   | _, .error e => .error e
@@ -180,7 +180,7 @@ def dtEncode (date time : Nat) : Res Bytes :=
 def leafEnc : Enc → Ty → Val → Res Bytes
   | .dflt, .int w, .num n => .ok (leBytes w n)
   | .bigEndian, .int w, .num n => .ok (beBytes w n)
-  | .bcd, .int _, .num n => .ok (bcdEnc n)
+  | .bcd, .int _, .num n => .ok (bcdEncK n)
   | .prrn, .int _, .num n => .ok (prrnEnc n)
   | .dflt, .str, .str cs => cpEncodeStr cs
   | .hex, .str, .str cs => hexEncodeStr cs
